@@ -8,7 +8,10 @@ import (
 	"encoding/json"
 	"fmt"
 	"os"
+	"runtime"
 	"strconv"
+	"sync"
+	"sync/atomic"
 	"time"
 )
 
@@ -194,6 +197,41 @@ func RandDrawsEqual() bool { return false }
 func Concrete(v, lo, hi int) int {
 	Assume(lo <= v && v <= hi)
 	return v
+}
+
+// ---------------------------------------------------------------- threads
+//
+// Under the symbolic executor Go/Yield/WaitAll are scheduling points of its
+// own scheduler (every interleaving at lock/atomic granularity within the
+// pre-emption bound). Natively they are real goroutines: a native replay of a
+// schedule-dependent counterexample is run under the race detector and
+// repeated, it is not schedule-exact.
+var threads sync.WaitGroup
+
+func Go(f func()) {
+	threads.Add(1)
+	go func() {
+		defer threads.Done()
+		defer func() {
+			if r := recover(); r != nil {
+				threadPanics.Store(r)
+			}
+		}()
+		f()
+	}()
+}
+
+var threadPanics atomic.Value
+
+func Yield() { runtime.Gosched() }
+
+// WaitAll joins every goroutine started with Go.
+func WaitAll() {
+	threads.Wait()
+	if r := threadPanics.Load(); r != nil {
+		threadPanics = atomic.Value{}
+		panic(r)
+	}
 }
 
 // Run executes a harness natively and classifies the outcome.
